@@ -3,7 +3,7 @@
 From DA Require Import Prelude NDArray Array PyRT.
 From DA.Gen Require Import locate_slice.
 From DA.Model Require Import SliceSpec.
-From DA.Proofs Require Import C02_proofs C02_decreasing C02_negstep C02_step.
+From DA.Proofs Require Import C02_proofs C02_decreasing C02_negstep C02_step C02_negsteps.
 From Coq Require Import Sorted.
 
 (* unbounded: on any increasing numeric axis that the code's own test classifies as monotonic, for
@@ -166,6 +166,40 @@ Example C02_step_nonvacuous :
   run_slice (arrQ KF [8; 7; 5; 4; 2.5; 1]%Q) (PNum 7.5) (PNum 2) (Some 3%Z) 6 = Ok [1; 4]%nat /\
   run_slice (arrQ KI [1; 2; 3]%Q) (PNum 1) (PNum 3) (Some 5%Z) 3 = Ok [0]%nat.
 Proof. split; [reflexivity|]. split; reflexivity. Qed.
+(* any NEGATIVE step: a[lo:hi:s] is exactly every |s|-th position of the closed bounding box counted DOWN from the last
+   position of the box ([b - 1] below: no position from b on is in the box), with no wrap-around *)
+Theorem C02_slice_negstep_increasing : forall k xs lo hi s,
+  (k = KI \/ k = KF) ->
+  g_is_monotonic_equal (arrQ k xs) = Ok (PBool true) ->
+  axis_increasing xs = true ->
+  StronglySorted Qlt xs ->
+  (s < 0)%Z ->
+  exists b ps,
+    run_slice (arrQ k xs) (PNum lo) (PNum hi) (Some s) (List.length xs) = Ok ps /\
+    (forall i, (b <= i < List.length xs)%nat -> ~ (nth i xs 0 <= lo)%Q) /\
+    forall i, In i ps <->
+              (i < List.length xs)%nat /\ (hi <= nth i xs 0 /\ nth i xs 0 <= lo)%Q /\
+              exists j, (i + j * Z.to_nat (- s) = b - 1)%nat.
+Proof. exact bbox_slice_negstep_increasing. Qed.
+Print Assumptions C02_slice_negstep_increasing.
+Theorem C02_slice_negstep_decreasing : forall k xs lo hi s,
+  (k = KI \/ k = KF) ->
+  g_is_monotonic_equal (arrQ k xs) = Ok (PBool true) ->
+  axis_increasing xs = false ->
+  StronglySorted Qgt' xs ->
+  (s < 0)%Z ->
+  exists b ps,
+    run_slice (arrQ k xs) (PNum lo) (PNum hi) (Some s) (List.length xs) = Ok ps /\
+    (forall i, (b <= i < List.length xs)%nat -> ~ (lo <= nth i xs 0 /\ nth i xs 0 <= hi)%Q) /\
+    forall i, In i ps <->
+              (i < List.length xs)%nat /\ (lo <= nth i xs 0 /\ nth i xs 0 <= hi)%Q /\
+              exists j, (i + j * Z.to_nat (- s) = b - 1)%nat.
+Proof. exact bbox_slice_negstep_decreasing. Qed.
+Print Assumptions C02_slice_negstep_decreasing.
+Example C02_negstep_nonvacuous :
+  run_slice (arrQ KF [1; 2.5; 4; 5; 7; 8]%Q) (PNum 7.5) (PNum 2) (Some (-2)%Z) 6 = Ok [4; 2]%nat /\
+  run_slice (arrQ KF [8; 7; 5; 4; 2.5; 1]%Q) (PNum 0) (PNum 7.5) (Some (-3)%Z) 6 = Ok [5; 2]%nat.
+Proof. split; reflexivity. Qed.
 (* position slices keep Python/NumPy's exclusive-stop meaning *)
 Theorem C02_position_slice : forall a b n,
   (a <= n)%nat -> (b <= n)%nat ->
